@@ -16,6 +16,7 @@
 """BGP Protocol"""
 
 import logging
+import threading
 import traceback
 import struct
 import time
@@ -57,6 +58,8 @@ class BGP(protocol.Protocol):
         self.add_path_ipv4_send = False
         self.adj_rib_in = {k: {} for k in CONF.bgp.afi_safi}
         self.adj_rib_out = {k: {} for k in CONF.bgp.afi_safi}
+        # the Adj-RIB-Out tables and their version counters are written by the REST API's worker threads
+        self.send_tables_lock = threading.Lock()
         self.adj_rib_in_ipv4_tree = Radix()
 
         # statistic
@@ -635,6 +638,11 @@ class BGP(protocol.Protocol):
             self.fsm.hold_time, self.fsm.keep_alive_time)
 
     def update_rib_out_ipv4(self, msg):
+        # called by the REST API's worker threads: look-up, count and store must not interleave between two requests
+        with self.send_tables_lock:
+            return self._update_rib_out_ipv4(msg)
+
+    def _update_rib_out_ipv4(self, msg):
         try:
             for prefix in msg['withdraw']:
                 if prefix in self.adj_rib_out['ipv4']:
@@ -697,6 +705,11 @@ class BGP(protocol.Protocol):
         return results
 
     def update_send_version(self, peer_ip, attr, nlri, withdraw):
+        # called by the REST API's worker threads: look-up, count and store must not interleave between two requests
+        with self.send_tables_lock:
+            return self._update_send_version(peer_ip, attr, nlri, withdraw)
+
+    def _update_send_version(self, peer_ip, attr, nlri, withdraw):
         if 14 in attr:
             if tuple(attr[14]['afi_safi']) == (1, 133):
                 LOG.info("send flowspec")
